@@ -118,6 +118,12 @@ int read_amiga(const char *filename, Memory *memory)
   {
     uint32_t hunk_type = read_int32(in);
 
+    if (feof(in))
+    {
+      fclose(in);
+      return -1;
+    }
+
     long marker = ftell(in);
 
     if (table_offset != 0)
